@@ -417,7 +417,7 @@ class Stream(AbstractStream):
         raise tmo.UndefinedPhase(phase)
     
     def __reduce__(self):
-        return self.from_data, (self.get_data(), self._ID, self._price, self.characterization_factors, self._thermo)
+        return self.from_data, (self.get_data(), self._ID or None, self._price, self.characterization_factors, self._thermo)
 
     # Phenomena-oriented simulation
     @property
